@@ -47,8 +47,8 @@ Verdict(r, ln) ==
            /\ Monitor(SameInstants(r.api, r.pb), [l |-> ln, monitor |-> "ListsAgree", explained |-> "none"])
 
 Conforms(r) ==
-    CASE r.kind = "del" -> AfterOf(r) = DeleteImpl(r.g, r.zone, InstIds, r.u, r.us, r.w, TRUE)
-      [] r.kind = "listdel" -> AfterOf(r) = DeleteImpl(r.g, r.zone, InstIds, r.obs.used.u, r.obs.used.us, r.obs.used.off, TRUE)
+    CASE r.kind = "del" -> AfterOf(r) = DeleteImpl(r.g, r.zone, InstIds, r.u, r.us, r.w, CodeClientOffset)
+      [] r.kind = "listdel" -> AfterOf(r) = DeleteImpl(r.g, r.zone, InstIds, r.obs.used.u, r.obs.used.us, r.obs.used.off, CodeClientOffset)
       [] OTHER -> TRUE
 
 Verdicts == l >= 1 => Verdict(Trace[l], l)
